@@ -149,6 +149,15 @@ func concOps() []concOp {
 			b := append(append([]byte{}, msg(arg)...), ent(arg)...)
 			return hx(secp256k1.NewIdentityPoint().SetUniformBytes(b[:49+arg*5]).CompressedBytes())
 		}},
+		{"uniform_degenerate", func(sh *shared, arg int) string { // the exceptional inputs of the map (u = 0, Z u^2 = -1), 32 / 48 / 64 bytes
+			u := big.NewInt(0)
+			if arg%2 == 1 {
+				u = sqrtP(new(big.Int).ModInverse(big.NewInt(11), bigP))
+			}
+			b := make([]byte, []int{32, 48, 64, 48}[arg%4])
+			u.FillBytes(b)
+			return hx(new(secp256k1.Point).SetUniformBytes(b).CompressedBytes())
+		}},
 		{"schnorr_sign", func(sh *shared, arg int) string {
 			sig, err := sh.spriv.Sign(&fixedReader{ent(arg)}, msg(arg), nil)
 			if err != nil {
